@@ -57,7 +57,7 @@ class Frame:
 
 
 class State:
-    __slots__ = ("frames", "pc", "heap", "events", "next_id", "retval", "status", "oblig", "atoms_next", "stop")
+    __slots__ = ("frames", "pc", "heap", "events", "next_id", "retval", "status", "oblig", "atoms_next", "stop", "nd")
 
     def __init__(self):
         self.frames = []
@@ -70,6 +70,7 @@ class State:
         self.oblig = []
         self.atoms_next = 4096
         self.stop = None
+        self.nd = 0     # number of forks on this path so far (a fork = the continuation was not determined by the state alone)
 
     def copy(self):
         s = State.__new__(State)
@@ -83,6 +84,7 @@ class State:
         s.oblig = list(self.oblig)
         s.atoms_next = self.atoms_next
         s.stop = self.stop
+        s.nd = self.nd
         return s
 
     def frame(self, fid):
@@ -104,6 +106,38 @@ class State:
         a = self.atoms_next
         self.atoms_next += n
         return list(range(a, a + n))
+
+    def live_fp(self, block):
+        """fingerprint of what can still influence execution when the top frame enters `block`: the frames below, the top frame's
+        locals that are live there, and the heap cells reachable from them"""
+        from ..cfg import live_in
+        top = self.frames[-1]
+        live = live_in(top.fn)[block] if block < len(top.fn["blocks"]) else None
+        fr = tuple((f.id, f.block, tuple(fp(v) for v in f.locals)) for f in self.frames[:-1])
+        tl = tuple(fp(v) if (live is None or j in live) else None for j, v in enumerate(top.locals))
+        # heap cells are named by allocation order, which differs between two visits that are otherwise alike: rename them in
+        # the order in which they are reached
+        canon = {}
+        order = []
+
+        def cf(x):
+            if isinstance(x, tuple):
+                if len(x) >= 2 and x[0] == "H" and isinstance(x[1], int) and not isinstance(x[1], bool):
+                    c = canon.get(x[1])
+                    if c is None:
+                        c = len(canon)
+                        canon[x[1]] = c
+                        order.append(x[1])
+                    return ("H", c) + tuple(cf(y) for y in x[2:])
+                return tuple(cf(y) for y in x)
+            return x
+        roots = cf((fr, (top.id, block, tl)))
+        hp = []
+        i = 0
+        while i < len(order):
+            hp.append(cf(fp(self.heap.get(order[i]))))
+            i += 1
+        return (roots, tuple(hp))
 
     def visible_fp(self, depth):
         """fingerprint of everything below frame index `depth` plus the heap cells reachable from there"""
@@ -1196,6 +1230,9 @@ class Interp:
                 # nxt: list of successor states (fork); first continues in this loop
                 if not nxt:
                     break
+                if len(nxt) > 1:
+                    for s in nxt:
+                        s.nd += 1
                 for s in nxt[1:]:
                     work.append(s)
                 st = nxt[0]
@@ -1511,11 +1548,29 @@ class Interp:
         fr.si = 0
         n = fr.visits.get(b, 0) + 1
         fr.visits[b] = n
+        if n >= 2 and self.opts.get("loop_subsume"):
+            # path-sensitive exploration with subsumption: a path that comes back to a block in a state (frames, reachable heap, path
+            # condition) in which the block was already entered continues exactly as that earlier visit did - nothing new to explore
+            try:
+                key = (st.live_fp(b), st.pc.fp())
+                hash(key)
+            except TypeError:
+                key = None
+            if key is not None:
+                seen = fr.visits.get(("seen", b))
+                if seen is None:
+                    seen = set()
+                    fr.visits[("seen", b)] = seen
+                if key in seen:
+                    st.status = "covered"
+                    return
+                seen.add(key)
         if n >= 8:
             # non-progress detection: the complete state (all frames, reachable heap, path condition) at this block is identical to the
-            # state at its previous visit -> the deterministic program repeats the same iteration forever on every input of this path
+            # state at its previous visit and the path did not fork in between (no outcome of the iteration depended on anything but
+            # the state, e.g. on what the environment returned) -> the program repeats the same iteration forever on every input of this path
             try:
-                fpv = (st.visible_fp(len(st.frames)), len(st.pc.log))
+                fpv = (st.visible_fp(len(st.frames)), len(st.pc.log), st.nd)
                 hash(fpv)
             except TypeError:
                 fpv = None
